@@ -22,6 +22,7 @@ mutual
       match e with
       | .comment _ => pure []
       | .startCdata => pure []
+      | .doctype n p s => if dtHasGt n p s then pure [] else pure [.leaf (.doctype n p s)]
       | .endCdata => pure []
       | .pi t d => if List.contains t '>' || List.contains d '>' then pure [] else pure [.leaf (.pi t d)]
       | e => pure [.leaf e]
@@ -128,8 +129,17 @@ theorem keep_leaf (cfg : Cfg) (e : Event) (he : e.isStartEnd = false) (rest : St
       simp only [prune, hgt, Bool.false_eq_true, ↓reduceIte]
       simp [ho, flattenList, Node.flatten]
   | doctype n p s =>
-    have : step cfg St.init (.doctype n p s) = .ok (St.init, [.doctype n p s]) := rfl
-    rw [sanitizeFrom_ok_cons this]; simp [prune, ho, flattenList, Node.flatten]
+    by_cases hgt : dtHasGt n p s = true
+    · have : step cfg St.init (.doctype n p s) = .ok (St.init, []) := by
+        simp only [step, hgt, ↓reduceIte]; rfl
+      rw [sanitizeFrom_ok_cons this, bind_pure_nil]
+      simp only [prune, hgt, ↓reduceIte]
+      simp [ho, flattenList]
+    · have : step cfg St.init (.doctype n p s) = .ok (St.init, [.doctype n p s]) := by
+        simp only [step, hgt, Bool.false_eq_true, ↓reduceIte]; rfl
+      rw [sanitizeFrom_ok_cons this]
+      simp only [prune, hgt, Bool.false_eq_true, ↓reduceIte]
+      simp [ho, flattenList, Node.flatten]
   | xmlDecl v e s =>
     have : step cfg St.init (.xmlDecl v e s) = .ok (St.init, [.xmlDecl v e s]) := rfl
     rw [sanitizeFrom_ok_cons this]; simp [prune, ho, flattenList, Node.flatten]
